@@ -42,7 +42,7 @@ def build(kinds, kink, closed, rnd, scale):
         V = [0j]
         th = rnd.uniform(0, 2 * math.pi)
         for k in range(n):
-            L = scale * rnd.choice([0.3, 1.0, 4.0])
+            L = scale * rnd.choice([0.05, 0.3, 1.0, 4.0])
             if k > 0:
                 th += math.radians(rnd.choice([-1, 1]) * rnd.uniform(30, 150)) if kink[k - 1] else (0 if kinds[k - 1] == 'L' and kinds[k] == 'L' else math.radians(rnd.uniform(-40, 40)))
             V.append(V[-1] + L * cmath.exp(1j * th))
@@ -178,9 +178,9 @@ def run(ck):
     r = ck.tlc('Smooth', 'SPECIFICATION Spec\nCONSTANTS MaxN = %d\nINVARIANT Dump\n' % 4, workers=1, coverage=False)
     cases = r.cases
     rnd.shuffle(cases)
-    combos = [(3, 1.99, 10.0), (3, 0.5, 1.0), (0.7, 1.5, 10.0), (10, 1.99, 3.0)]
+    combos = [(3, 1.99, 10.0), (3, 0.5, 1.0), (0.7, 1.5, 10.0), (10, 1.99, 3.0), (0.2, 1.99, 10.0), (0.3, 1.0, 25.0)]
     for i, c in enumerate(cases):
-        for (mjs, tight, scale) in (combos + combos if not quick else [combos[i % 4], combos[(i + 1) % 4]]):
+        for (mjs, tight, scale) in (combos + combos if not quick else [combos[i % 6], combos[(i + 1) % 6], combos[(i + 4) % 6]]):
             scenario(ck, c, rnd, mjs, tight, scale)
     ck.sample('scenario', cases[0])
 
